@@ -75,6 +75,11 @@ class FakeSnowflakeConnection:
                 f"""select * from information_schema.schemata
                 where upper(catalog_name) = '{self.database}' and upper(schema_name) = '{self.schema}'"""
             ).fetchone()
+            # can't create a schema in a database that doesn't exist (and wasn't created above)
+            and duck_conn.execute(
+                f"""select * from information_schema.schemata
+                where upper(catalog_name) = '{self.database}'"""
+            ).fetchone()
         ):
             duck_conn.execute(f"CREATE SCHEMA IF NOT EXISTS {self.database}.{self.schema}")
 
